@@ -42,6 +42,10 @@ def rank_profiles(tier, rational=True, extra4=True):
         out += [("int", c) for c in fam.prof_list(R3, 3, (1, 2, 3), c3)]
         out += [("int", c) for c in fam.prof_list(R2, 3, (1, 2), c2)]
         out += [("int", c) for c in fam.prof_list(R1, 1, (1, 2), c1)]
+        # uncondensed profiles: a ranking repeated on a further ballot with another weight
+        base = fam.prof_list(R3, 2, (1, 2), c3)
+        out += [("int", (cs_, bl + ((bl[0][0], 3),))) for (cs_, bl) in base[30::2]]
+        out += [("int", (cs_, ((bl[-1][0], 1),) + bl)) for (cs_, bl) in base[31::2]]
         if extra4:
             c4 = fam.cands(4)
             out += [("int", c) for c in fam.prof_list(fam.rank_family(4), 2, (1, 2), c4)]
@@ -59,7 +63,8 @@ def family_text(tier, rational=True, extra4=True):
         if rational:
             s += " + Prof(Rank(3),2,{1/2,3/2}) + every 9th of Prof(Rank(3),2,{1000003,999983}) and of Prof(Rank(3),2,{2^53,2^53+1})"
     else:
-        s = "Prof(Rank(3),3,{1,2,3}) + Prof(Rank(2),3,{1,2}) + Prof(Rank(1),1,{1,2})"
+        s = ("Prof(Rank(3),3,{1,2,3}) + Prof(Rank(2),3,{1,2}) + Prof(Rank(1),1,{1,2}) + uncondensed variants of the two-type profiles of "
+             "Prof(Rank(3),2,{1,2}) (one ranking repeated on a third ballot)")
         if extra4:
             s += " + Prof(Rank(4),2,{1,2})"
         if rational:
